@@ -3,7 +3,7 @@
 TRUSTED_BASE_COMMON = [
     "Coq 8.16.1 kernel incl. vm_compute conversion (no native_compute)",
     "Print Assumptions of every property theorem: expected 'Closed under the global context' (allow-list below is empty)",
-    "hand-written Gallina model of the Rust code; tie = differential correspondence (tools/check) + constants translator tools/srcparams.py",
+    "hand-written Gallina model of the Rust code; tie = differential correspondence (tools/check) + constants translator tools/srcparams.py + translator of leaf functions tools/rustfun.py (tokenizer, parser, interval analysis, Gallina printer; its output is tied to the model by the lemmas of coq/SrcFunTie.v, proved on every run)",
     "extraction: ExtrOcamlBasic only (Extract Inductive bool/option/list/prod/unit/sumbool/sumor to OCaml natives); OCaml 4.13.1; ocaml/conv.ml + per-group driver -- cross-checked on every run: a sub-sample of the cases is re-evaluated inside Coq (vm_compute) through the independent translator tools/crosscheck.py and must print the same S and M (evidence: extraction_crosscheck)",
     "Rust harness (harness/): generators, canonicalisation, comparison; rustc/cargo of the sandbox",
 ]
@@ -19,3 +19,10 @@ for _p in sorted(glob.glob(os.path.join(os.path.dirname(os.path.abspath(__file__
     _m = importlib.util.module_from_spec(_spec)
     _spec.loader.exec_module(_m)
     PROPS[os.path.basename(_p)[:-3]] = _m.CFG
+
+# Properties whose model builds or reads nodes depend on the leaf functions that tools/rustfun.py translates
+# from the source on every run; coq/SrcFunTie.v (tie lemmas, proved for all inputs) is one of their obligations.
+SRCFUN_TIE_PROPS = "C01 C02 C03 C04 C06 C07 C08 C09 C10 C11 C12 C13 C15 C16 C20".split()
+for _pid in SRCFUN_TIE_PROPS:
+    if _pid in PROPS and "SrcFunTie.vo" not in PROPS[_pid].setdefault("coq_targets", []):
+        PROPS[_pid]["coq_targets"].append("SrcFunTie.vo")
